@@ -177,10 +177,56 @@ impl<'a> Model<'a> {
     }
 }
 
+/// render_block against the full render on general programs (variables, loops, captures, includes, components inside
+/// blocks; children overriding with super()): every block body carries start/end marks, the text between the first start
+/// mark and the last end mark of a block in the full render is what `render_block` must return.
+fn marked_program_case(cx: &mut Cx, case: u64) {
+    cx.begin_case(case, "marked-program");
+    let mut rng = cx.rng(case);
+    let program = {
+        let mut g = crate::progs::PGen::new(&mut rng);
+        g.block_markers = true;
+        g.program()
+    };
+    let tera = match guard(|| crate::props::c18::build_engine(&program)) {
+        Ok(Ok(t)) => t,
+        _ => {
+            cx.count("marked_programs_rejected", 1);
+            return;
+        }
+    };
+    let mut ctx = crate::props::c18::context_of(&crate::progs::base_context());
+    ctx.insert("a", "A<arg>");
+    ctx.insert("n", &3);
+    for e in &program.entries {
+        cx.eval();
+        let Ok(Ok(full)) = guard(|| tera.render(e, &ctx)) else { continue };
+        for (tn, bn) in program.blocks.iter().filter(|(tn, _)| tn == e) {
+            let (st, en) = (format!("\u{1}{bn}\u{2}"), format!("\u{3}{bn}\u{4}"));
+            let (Some(a), Some(b)) = (full.find(&st), full.rfind(&en)) else { continue };
+            if b < a {
+                continue;
+            }
+            let want = &full[a..b + en.len()];
+            cx.eval();
+            cx.count("marked_blocks_compared", 1);
+            match guard(|| tera.render_block(tn, bn, &ctx).map_err(|x| x.to_string())) {
+                Ok(Ok(g)) if g == want => {}
+                Ok(g) => cx.violation("C04/render_block-differs-from-full-render/general-program", format!("render_block({tn}, {bn}) gave {:?}, in the full render the block writes {:?}", g.map(|x| clip(&x, 300)), clip(want, 300)), json!({"templates": program.templates, "template": tn, "block": bn})),
+                Err(p) => cx.violation(&format!("C04/panic/{}", panic_site(&p)), format!("render_block panicked: {p}"), json!({"templates": program.templates})),
+            }
+        }
+    }
+}
+
 pub fn run(cx: &mut Cx) {
     let total = cx.total(200_000, 3_000_000);
     let dump = cx.dump;
     for case in cx.my_cases(total) {
+        if case % 32 == 31 && !dump {
+            marked_program_case(cx, case);
+            continue;
+        }
         let mut r = cx.rng(case);
         cx.begin_case(case, "chain");
         let long = r.chance(1, 4);
